@@ -135,6 +135,9 @@ class BuiltinsMixin(AccessMixin):
             if g.pos < len(g.items):
                 self.gen_advance(g, g.pos + 1, node, frame)
                 return g.items[g.pos - 1]
+            if getattr(g, "truncated", False):
+                raise AnalysisError("unmodelled-stdlib", "next() runs past the items the model lays out for an endless iterator at %s"
+                                    % frame.where(node))
             if len(args) > 1:
                 return args[1]
             self.event("stop-iteration", where=frame.where(node), node=node)
@@ -144,8 +147,14 @@ class BuiltinsMixin(AccessMixin):
         return Unknown("next of dynamic")
 
     def bi_iter(self, args, kwargs, node, frame):
+        if len(args) == 2:
+            raise AnalysisError("unmodelled-builtin", "iter(callable, sentinel) at %s" % frame.where(node))
         items = self.iterate(args[0], node, frame)
-        return GenVal(items) if items is not None else args[0]
+        if items is None:
+            return args[0]
+        g = GenVal(items)
+        g.truncated = isinstance(items, TruncList)
+        return g
 
     def bi_hex(self, args, kwargs, node, frame):
         v = norm_int(args[0])
@@ -163,6 +172,16 @@ class BuiltinsMixin(AccessMixin):
         if isinstance(v, (SymAny, Unknown)):
             return self.decide(self.describe_cond(node), node, frame)
         kind = self.kind_of(v)
+        if any(isinstance(ty, Builtin) and ty.name == "property" for ty in types) and isinstance(v, PropertyVal):
+            return True
+        if isinstance(v, NTuple):
+            kind = "tuple"
+        elif isinstance(v, IntEnumMember):
+            kind = "int"
+        if isinstance(v, (NTuple, IntEnumMember, EnumMember)):
+            own = v.ntcls if isinstance(v, NTuple) else v.ecls
+            if any(isinstance(ty, ClassVal) and not ty.builtin and own.is_subclass(ty) for ty in types):
+                return True
         tnames = set(ty.name for ty in types if isinstance(ty, ClassVal) and ty.builtin)
         if {"bytes", "bytearray"} <= tnames and isinstance(v, (View, SymBytes, Buf)) and getattr(v, "pytype", None) in (None, "bytes", "bytearray"):
             return True         # a byte buffer is one or the other
@@ -187,7 +206,9 @@ class BuiltinsMixin(AccessMixin):
     def bi_getattr(self, args, kwargs, node, frame):
         obj, name = args[0], args[1]
         if not isinstance(name, str):
-            return Unknown("getattr with dynamic name")
+            if isinstance(name, (SymStr, Unknown, SymAny)):
+                return Unknown("getattr with dynamic name")
+            raise PyRaise(Instance(self.bclasses["TypeError"], ("attribute name must be string, not '%s'" % self.kind_of(name),)), node, frame.where(node))
         if len(args) > 2:
             try:
                 return self.get_attr(obj, name, node, frame)
@@ -316,7 +337,13 @@ class BuiltinsMixin(AccessMixin):
         lists = [self.iterate(a, node, frame) for a in args]
         if any(l is None for l in lists):
             return Unknown("zip of dynamic")
-        return list(zip(*lists))
+        out = list(zip(*lists))
+        if lists and all(isinstance(l, TruncList) for l in lists):
+            return TruncList(out)
+        if any(isinstance(l, TruncList) and len(l) == len(out) for l in lists) and not any(
+                not isinstance(l, TruncList) and len(l) == len(out) for l in lists):
+            raise AnalysisError("unmodelled-stdlib", "zip with an endless iterator runs past the model at %s" % frame.where(node))
+        return out
 
     def bi_sorted(self, args, kwargs, node, frame):
         items = self.iterate(args[0], node, frame)
@@ -375,10 +402,13 @@ class BuiltinsMixin(AccessMixin):
         return Unknown("round")
 
     def bi_map(self, args, kwargs, node, frame):
-        items = self.iterate(args[1], node, frame)
-        if items is None:
+        cols = [self.iterate(a, node, frame) for a in args[1:]]
+        if any(c is None for c in cols):
             return Unknown("map over dynamic")
-        return GenVal([self.call(args[0], [x], {}, node, frame) for x in items])
+        n = min(len(c) for c in cols)
+        g = GenVal([self.call(args[0], [c[i] for c in cols], {}, node, frame) for i in range(n)])
+        g.truncated = all(isinstance(c, TruncList) for c in cols)
+        return g
 
     def bi_filter(self, args, kwargs, node, frame):
         items = self.iterate(args[1], node, frame)
@@ -422,7 +452,22 @@ class BuiltinsMixin(AccessMixin):
         return f
 
     def bi_super(self, args, kwargs, node, frame):
-        return SuperProxy(frame)
+        sp = SuperProxy(frame)
+        if len(args) == 2:
+            sp.start, sp.obj = args[0], args[1]
+            return sp
+        if args:
+            raise AnalysisError("unmodelled-builtin", "super() with one argument at %s" % frame.where(node))
+        # zero-argument form: the class the running method was written in, and the method's first argument
+        fr = frame
+        while fr is not None and not (fr.func is not None and getattr(fr.func, "cls", None) is not None):
+            fr = fr.parent
+        if fr is None:
+            raise PyRaise(Instance(self.bclasses["RuntimeError"], ("super(): no arguments",)), node, frame.where(node))
+        params = [a.arg for a in fr.func.node.args.posonlyargs + fr.func.node.args.args]
+        sp.start = fr.func.cls
+        sp.obj = fr.locals.get(params[0]) if params else None
+        return sp
 
     # -- constructors ------------------------------------------------------
     def bi_dict(self, args, kwargs, node, frame):
@@ -579,10 +624,16 @@ class BuiltinsMixin(AccessMixin):
                       node, frame.where(node))
 
     def bi_type(self, args, kwargs, node, frame):
+        if len(args) == 3 and not kwargs:
+            return self.make_class(args[0], args[1], args[2], node, frame)
         if len(args) == 1:
             v = args[0]
             if isinstance(v, Instance):
                 return v.cls
+            if isinstance(v, NTuple):
+                return v.ntcls
+            if isinstance(v, (IntEnumMember, EnumMember)):
+                return v.ecls
             if isinstance(v, (Unknown, SymAny)):
                 return TypeOf(SymStr(("typename", self.name_of(v))))
             k = self.kind_of(v)
@@ -653,7 +704,12 @@ class BuiltinsMixin(AccessMixin):
                                 I.notes.append(("dict.update-dynamic", where))
                             else:
                                 for it in items:
-                                    obj[it[0]] = it[1]
+                                    pair = I.iterate(it, n, f)
+                                    if pair is None or len(pair) != 2:
+                                        raise AnalysisError("unmodelled-builtin", "dict.update over items that are not pairs at %s" % where)
+                                    obj[I.hash_check(pair[0], n, f)] = pair[1]
+                                    if isinstance(pair[1], View) and isinstance(pair[0], str):
+                                        I.event("view-stored", key=pair[0], view=pair[1], where=where, node=n)
                     obj.update(k)
                     for kk, vv in k.items():
                         if isinstance(vv, View):
@@ -1067,3 +1123,5 @@ class KeySet:
 class SuperProxy:
     def __init__(self, frame):
         self.frame = frame
+        self.start = None
+        self.obj = None
